@@ -111,6 +111,7 @@ FrameChecks(ev, f, a, pre, post, ctx, x, obs, tlo, thi) ==
       sl1 == SlotsAfter(x.slots, f, tlo, thi)
       vd  == PairVerdict(sl1, f)
       path == (IF ctx.U THEN "U" ELSE "D") \o (IF ctx.exists THEN ".upd" ELSE ".first")
+      t50 == IF IsCommB(f) /\ MBit(f, 36) = 1 THEN "bds50.negrate" ELSE "bds50"
       tag == IF IsVel12(f) THEN FrameTag(f) \o "." \o path ELSE FrameTag(f)
   IN
   /\ Chk("C05", "alt", AdmAlt(pre, post.alt, f, ctx), ev, tag)
@@ -129,11 +130,11 @@ FrameChecks(ev, f, a, pre, post, ctx, x, obs, tlo, thi) ==
   /\ Chk("C10", "caps", IsCommB(f) => AdmCaps(pre, post.caps, f, ctx), ev, "bds17")
   /\ Chk("C10", "selalt", IsCommB(f) => AdmSel(pre, post.sel, f, ctx, adv), ev, "bds40")
   /\ Chk("C10", "baro", IsCommB(f) => AdmBaro(pre, post.baro, f, ctx, adv), ev, "bds40")
-  /\ Chk("C10", "roll", IsCommB(f) => AdmRoll(pre, post.roll, f, ctx, adv), ev, "bds50")
-  /\ Chk("C10", "track", IsCommB(f) => AdmTrk(pre, post.trk, f, ctx, adv), ev, "bds50")
-  /\ Chk("C10", "tar", IsCommB(f) => AdmTar(pre, post.tar, f, ctx, adv), ev, IF MBit(f, 36) = 1 THEN "bds50.negrate" ELSE "bds50")
-  /\ Chk("C10", "gs", IsCommB(f) => AdmGs(pre, post.gs, f, ctx, adv), ev, "bds50")
-  /\ Chk("C10", "tas", IsCommB(f) => AdmTas(pre, post.tas, f, ctx, adv), ev, "bds50")
+  /\ Chk("C10", "roll", IsCommB(f) => AdmRoll(pre, post.roll, f, ctx, adv), ev, t50)
+  /\ Chk("C10", "track", IsCommB(f) => AdmTrk(pre, post.trk, f, ctx, adv), ev, t50)
+  /\ Chk("C10", "tar", IsCommB(f) => AdmTar(pre, post.tar, f, ctx, adv), ev, t50)
+  /\ Chk("C10", "gs", IsCommB(f) => AdmGs(pre, post.gs, f, ctx, adv), ev, t50)
+  /\ Chk("C10", "tas", IsCommB(f) => AdmTas(pre, post.tas, f, ctx, adv), ev, t50)
   /\ Chk("C10", "heading", IsCommB(f) => AdmHdg(pre, post.hdg, f, ctx, adv), ev, "bds60")
   /\ Chk("C10", "ias", IsCommB(f) => AdmIas(pre, post.ias, f, ctx, adv), ev, "bds60")
   /\ Chk("C10", "mach", IsCommB(f) => AdmMach(pre, post.mach, f, ctx, adv), ev, "bds60")
